@@ -61,6 +61,17 @@ static std::string abs_pattern(W & w, const std::string & p)
 
 struct Ctx
 {
+   // node paths whose replicas a quiet removal (PR_NAME_REMOVE_QUIETLY) has made stale, by design: the parent of a
+   // victim and everything at or below a victim.  The replay oracle leaves them alone for the rest of the case;
+   // the index invariant and the comparison with the model (tree, streams) still cover them.
+   std::set<std::string> taintExact;
+   std::vector<std::string> taintPrefix;
+   bool tainted(const std::string & p) const
+   {
+      if (taintExact.count(p)) return true;
+      for (size_t i=0; i<taintPrefix.size(); i++) if ((p == taintPrefix[i])||(p.compare(0, taintPrefix[i].size()+1, taintPrefix[i]+"/") == 0)) return true;
+      return false;
+   }
    W * w;
    int k;
    std::vector<ClientView> views;
@@ -159,7 +170,23 @@ static void run_case(int k, const std::string & head, const std::string & body)
             const std::string & v = a[0];
             if (ci) verbs += "_"; verbs += v;
             if (v != "gd") pureGet = false;
-            if (v == "sd") msgs.push_back(MkSetData(a[1], (a[2] == "1") ? (1u<<SETDATANODE_FLAG_ADDTOINDEX) : 0, (int32)oi));
+            if (v == "sd")
+            {
+               // one field per path (a trailing '/' = empty last clause = generated name); flags: bit 0 ADDTOINDEX, bit 1 QUIET
+               const int fl = atoi(a[2].c_str());
+               const uint32 bits = ((fl&1) ? (1u<<SETDATANODE_FLAG_ADDTOINDEX) : 0) | ((fl&2) ? (1u<<SETDATANODE_FLAG_QUIET) : 0);
+               std::vector<std::string> ps = Split(a[1], ',');
+               MessageRef m = MkMsg(PR_COMMAND_SETDATA);
+               std::set<std::string> seenp;
+               for (size_t i=0; i<ps.size(); i++)
+               {
+                  if (!seenp.insert(ps[i]).second) {fprintf(stderr, "sd: paths of one SETDATA must be distinct [%s]\n", cmds[ci].c_str()); exit(2);}
+                  MessageRef d = MkMsg(0); (void) d()->AddInt32("v", (int32)oi);
+                  (void) m()->AddMessage(ps[i].c_str(), d);
+               }
+               if (bits) (void) m()->AddInt32(PR_NAME_FLAGS, (int32)bits);
+               msgs.push_back(m);
+            }
             else if (v == "io")
             {
                std::vector<std::pair<std::string,int> > items;
@@ -174,10 +201,39 @@ static void run_case(int k, const std::string & head, const std::string & body)
                   prev = bs[i]; first = false;
                   items.push_back(std::make_pair(before_str(bs[i]), (int)i));
                }
-               msgs.push_back(MkInsertOrdered(a[1], items));
+               // several PR_NAME_KEYS of equal depth: one traversal, each matching node once
+               std::vector<std::string> keys = Split(a[1], ',');
+               MessageRef m = MkInsertOrdered(keys[0], items);
+               for (size_t i=1; i<keys.size(); i++) (void) m()->AddString(PR_NAME_KEYS, keys[i].c_str());
+               msgs.push_back(m);
             }
-            else if (v == "ro") msgs.push_back(MkReorder(a[1], before_str(a[2])));
+            else if (v == "ro")
+            {
+               // one string field per pattern, handled one after the other
+               std::vector<std::string> ps = Split(a[1], ','), bs = Split(a[2], ',');
+               if (ps.size() != bs.size()) {fprintf(stderr, "ro: patterns and befores must pair up [%s]\n", cmds[ci].c_str()); exit(2);}
+               MessageRef m = MkMsg(PR_COMMAND_REORDERDATA);
+               std::set<std::string> seenp;
+               for (size_t i=0; i<ps.size(); i++)
+               {
+                  if (!seenp.insert(ps[i]).second) {fprintf(stderr, "ro: patterns of one REORDERDATA must be distinct [%s]\n", cmds[ci].c_str()); exit(2);}
+                  (void) m()->AddString(ps[i].c_str(), before_str(bs[i]).c_str());
+               }
+               msgs.push_back(m);
+            }
             else if (v == "rm") msgs.push_back(MkRemoveData(a[1]));
+            else if (v == "rq")
+            {
+               // quiet removal: whom it leaves stale is decided before it happens
+               std::vector<NodeInfo> before = all_nodes(w);
+               const std::string ap = std::to_string(sid) + "/" + a[1];
+               for (size_t i=0; i<before.size(); i++) if (pat_matches(ap, before[i].canon))
+               {
+                  cx.taintPrefix.push_back(before[i].canon);
+                  cx.taintExact.insert(before[i].canon.substr(0, before[i].canon.rfind('/')));
+               }
+               msgs.push_back(MkRemoveData(a[1], true));
+            }
             else if (v == "su") {msgs.push_back(MkSubscribe(abs_pattern(w, a[1]))); if (std::find(V.subs.begin(), V.subs.end(), a[1]) == V.subs.end()) V.subs.push_back(a[1]);}
             else if (v == "sq")
             {
@@ -312,7 +368,7 @@ static void run_case(int k, const std::string & head, const std::string & body)
                      if (mine)
                      {
                         std::string why;
-                        if (!apply_op(CV.replica[cp], s->Cstr(), why))
+                        if ((!apply_op(CV.replica[cp], s->Cstr(), why))&&(!cx.tainted(cp)))
                         {
                            std::ostringstream d; d << "client " << c << " node " << cp << ": " << why;
                            fail(cx, "replica-diverged", stepNo, verbs, d.str());
@@ -379,7 +435,7 @@ static void run_case(int k, const std::string & head, const std::string & body)
             for (size_t i=0; i<nodes.size(); i++)
             {
                existing.insert(nodes[i].canon);
-               if (!view_subscribed(CV, nodes[i].canon)) continue;
+               if ((!view_subscribed(CV, nodes[i].canon))||(cx.tainted(nodes[i].canon))) continue;
                std::vector<std::string> ix = IndexOf(*nodes[i].node);
                std::map<std::string, std::vector<std::string> >::iterator it = CV.replica.find(nodes[i].canon);
                const std::vector<std::string> rep = (it != CV.replica.end()) ? it->second : std::vector<std::string>();
@@ -412,7 +468,7 @@ static void run_case(int k, const std::string & head, const std::string & body)
             {
                if (existing.count(it->first) == 0)
                {
-                  if ((!it->second.empty())&&(view_subscribed(CV, it->first)))
+                  if ((!it->second.empty())&&(view_subscribed(CV, it->first))&&(!cx.tainted(it->first)))
                   {
                      std::ostringstream d; d << "client " << c << " still holds [" << join(it->second, ",") << "] for the removed node " << it->first;
                      fail(cx, "replica-diverged entries-left-for-removed-node", stepNo, verbs, d.str());
